@@ -123,9 +123,9 @@ SPECS = {
         canary=(F + "_local_receive", "item-queued-at-the-head", canary_c02)),
     "C03": dict(
         title="close: one close frame after the data (none if the peer closed first), ENDMARKER behind pending items, both tables forget the id; receive re-queues ENDMARKER and raises EOFError again and again; closing side state; second close is a no-op",
-        targets=[C + "close", C + "receive", C + "waitclose", C + "isclosed", C + "send", C + "_getremoteerror", F + "_local_close", F + "_no_longer_opened"], scenarios=["c03_close"],
+        targets=[C + "close", C + "receive", C + "waitclose", C + "isclosed", C + "send", C + "_getremoteerror", F + "_local_close", F + "_no_longer_opened", C + "__del__"], scenarios=["c03_close"],
         heavy={C + "close": 4, F + "_local_close": 4},
-        extra=["Channel.__del__ (reference drop) is not under contract yet: native scenarios only"],
+        extra=["Channel.__del__: what it tells the peer is under contract; WHEN it runs (reference counting / GC) is the interpreter's business"],
         canary=(C + "receive", "endmarker-consumed-not-requeued", canary_c03)),
     "C04": dict(
         title="a stream ending inside or between frames raises EOFError out of from_io (C08); every exit of the receiver loop reaches the epilogue, which sweeps every registered channel (ENDMARKER, receiveclosed) and callback, sets finished and closes the IO; new() then raises OSError",
@@ -154,7 +154,7 @@ SPECS = {
         canary=(C + "setcallback", "receive-still-possible-after-setcallback", canary_c10)),
     "C18": dict(
         title="new(): fresh ids step by 2 from the start count (parity invariant), an existing registration is never replaced; Channel.__init__; close/_local_close/_no_longer_opened/_finished_receiving remove the id from both tables",
-        targets=[F + "new", C + "__init__", C + "close", F + "_no_longer_opened", F + "_local_close", F + "_finished_receiving"], scenarios=["c18_ids"],
+        targets=[F + "new", C + "__init__", C + "close", F + "_no_longer_opened", F + "_local_close", F + "_finished_receiving", C + "__del__"], scenarios=["c18_ids"],
         heavy={C + "close": 3, F + "_local_close": 3, F + "_finished_receiving": 4},
         extra=["WeakValueDictionary / reference counting; growth over thousands of cycles only in the native scenario (200 cycles)", "save_Channel / load_channel are under contract in C01/C13"],
         canary=(F + "new", "fresh-ids-step-by-one", canary_c18)),
